@@ -2115,7 +2115,38 @@ impl Gen {
         }
     }
 
+    /// a call with TWO failing operands, each preceded by an effect of its own. Whatever order
+    /// the operands are worked out in, exactly one of the two effects happens and the error is
+    /// that operand's; an evaluator that does not stop at the first failing operand shows both
+    fn two_failing_operands(&mut self) {
+        const FAULTS: &[(&str, &str)] = &[
+            ("(car 5)", "Type"),
+            ("(vector-ref (vector 1) 9)", "Index"),
+            ("(/ 1 0)", "DivZero"),
+            ("(5 5)", "NotProc"),
+            ("(cons 1)", "Arity"),
+            ("(vector-set! #(1 2) 0 1)", "Immutable"),
+        ];
+        let i = self.rng.upto(FAULTS.len());
+        let mut j = self.rng.upto(FAULTS.len() - 1);
+        if j >= i {
+            j += 1;
+        }
+        self.need("f2");
+        self.next_note += 1;
+        let a = self.next_note;
+        self.next_note += 1;
+        let b = self.next_note;
+        let text = format!("(f2 (begin (sim-note {}) {}) (begin (sim-note {}) {}))", a, FAULTS[i].0, b, FAULTS[j].0);
+        let sx = parse_one(&text).expect("two-fault form parses");
+        self.emit(sx, &format!("fault2:{}:{}:{}", a, b, FAULTS[j].1), vec![], true);
+    }
+
     fn fault_transaction(&mut self) {
+        if self.rng.chance(1, 12) {
+            self.two_failing_operands();
+            return;
+        }
         let kind = self.rng.upto(8);
         let (fault, kind_name) = self.fault_expr(kind);
         let mut labels = vec![kind_name.to_string()];
@@ -2393,8 +2424,26 @@ fn execute_a(case: Value) -> RunResult {
             }
             _ => {}
         }
-        let expected = model_outcome(&m, &expected_r);
+        let mut expected = model_outcome(&m, &expected_r);
         let got = real.eval_text(&text);
+        if kind.starts_with("fault2:") {
+            // the order in which operands are worked out is the implementation's: the outcome
+            // that belongs to the second operand (its effect alone, its error) is as good
+            let parts: Vec<&str> = kind.split(':').collect();
+            let (a, b) = (parts[1].parse::<i64>().unwrap_or(-1), parts[2].parse::<i64>().unwrap_or(-1));
+            if let Outcome::Error(g) = &got {
+                let gname = format!("{:?}", g);
+                let gname = gname.split('(').next().unwrap_or("").to_string();
+                let rt = real.host.borrow().trace.clone();
+                if gname == parts[3] && rt.last() == Some(&b) && m.host.trace.last() == Some(&a) && rt.len() == m.host.trace.len() {
+                    m.host.trace.pop();
+                    m.host.trace.push(b);
+                    expected = got.clone();
+                    res.count("probe.second_operand_worked_out_first");
+                }
+            }
+            res.count("fault_context.two-failing-operands");
+        }
         res.log.push(format!(
             "{:>3} [{}] {} => {} | model {}",
             step,
